@@ -9,6 +9,8 @@ impl -> spec: harness `doc-attr-record` (seeded random abstract documents: longe
 judge:        Trace_Attr.tla re-computes the effective attributes of every event from the abstract case with
               the AttrNorm operators and prints a VERDICT for every event that is not ideal.
 """
+import concurrent.futures
+import glob
 import json
 import os
 
@@ -77,6 +79,37 @@ def _split(obs, trace, budget):
     return total, judged, fast_only
 
 
+def _replay_parallel(replay, obs, wd, nproc):
+    """doc-attr-replay over `nproc` contiguous chunks of the REPLAY file, outputs concatenated in order"""
+    if nproc <= 1:
+        C.run_harness(["doc-attr-replay", "--in", replay, "--out", obs])
+        return
+    n = C.count_lines(replay)
+    per = (n + nproc - 1) // nproc
+    parts = []
+    with open(replay) as f:
+        for k in range(nproc):
+            pin = os.path.join(wd, "part%d.replay" % k)
+            with open(pin, "w") as g:
+                for _ in range(per):
+                    line = f.readline()
+                    if not line:
+                        break
+                    g.write(line)
+            parts.append((pin, os.path.join(wd, "part%d.obs" % k)))
+    with concurrent.futures.ThreadPoolExecutor(max_workers=nproc) as ex:
+        futs = [ex.submit(C.run_harness, ["doc-attr-replay", "--in", pin, "--out", pout]) for pin, pout in parts]
+        for fu in futs:
+            fu.result()
+    with open(obs, "w") as g:
+        for pin, pout in parts:
+            with open(pout) as f:
+                for line in f:
+                    g.write(line)
+            os.unlink(pin)
+            os.unlink(pout)
+
+
 def _abs_key(e):
     if e.get("k") == "mc":
         a = e["abs"]
@@ -87,6 +120,9 @@ def _abs_key(e):
 def run(prop, tier):
     out = C.Outcome(prop, tier)
     wd = C.workdir("c11")
+    # stored cases of an earlier run with the same tier and seed would be mistaken for this run's
+    for f in glob.glob(os.path.join(C.REPLAYS, prop, "%s-%d-*.json" % (tier, C.seed()))):
+        os.unlink(f)
     try:
         # 1. model check AttrNorm's theorems over the literal space and emit the cases
         replay = os.path.join(wd, "attr.replay")
@@ -99,13 +135,13 @@ def run(prop, tier):
             raise C.ToolError("MC_Attr emitted no case")
         # 2. spec -> impl: replay every case into the DOM
         obs = os.path.join(wd, "attr.obs")
-        C.run_harness(["doc-attr-replay", "--in", replay, "--out", obs])
+        _replay_parallel(replay, obs, wd, 1 if ncases < 100000 else 4)
         if C.count_lines(obs) != ncases:
             raise C.ToolError("harness observed %d of %d cases" % (C.count_lines(obs), ncases))
         os.unlink(replay)
         # 3. impl -> spec: seeded random documents
         rnd = os.path.join(wd, "attr.rnd")
-        nrnd = 4000 if tier == "quick" else 60000
+        nrnd = 4000 if tier == "quick" else 30000
         C.run_harness(["doc-attr-record", "--seed", str(C.seed()), "--count", str(nrnd), "--out", rnd])
         # 4. one judge: Trace_Attr.tla
         trace = os.path.join(wd, "attr.trace")
